@@ -152,6 +152,17 @@ where
         μ: T,
         _scaling_strategy: ScalingStrategy,
     ) -> bool {
+        // z must be strictly dual feasible, as measured by the same expression
+        // that update_dual_grad_H uses.  Report a scaling failure otherwise.
+        {
+            let two: T = (2.).as_T();
+            let phi = zip(&self.α, z).fold(T::one(), |phi, (&αi, &zi)| phi * (zi / αi).powf(two * αi));
+            let ζ = phi - z[self.dim1()..].sumsq();
+            if ζ.is_nan() || ζ <= T::zero() {
+                return false;
+            }
+        }
+
         // update both gradient and Hessian for function f*(z) at the point z
         self.update_dual_grad_H(z);
         self.data.μ = μ;
